@@ -19,10 +19,12 @@
 //	    k<f>=<content> silent disk write | K<f> silent disk remove
 //	content = "e" (empty file) or a sequence of statements, one per line:
 //	    l `local v = 1` | c `print(1)` | s syntax error | d<k> `g<k> = 1` | u<k> `print(g<k>)` | r<f> `require("<f>")`
+//	    | f1 `function gf(a) end` | f2 `function gf(a, b) end` | g `gf(1, 2, 3)`
 //
 // answer: steps joined by "|", step 0 = after initialize/initialized; step = <view> or <view>~<fresh view>;
 //
-//	view = "-" or "a:4@0,2@1;b:1@3"  (per file the last published list in the order sent, type@line)
+//	view = "-" or "a:4@0#kln7fa,2@1#122tael;b:1@3#..."  (per file the last published list in the order sent,
+//	        type@line#tag, tag = hash of start column, end line, end column and message text: c08_server.go c08Tag)
 package main
 
 import (
@@ -72,6 +74,15 @@ func c08Render(code string) string {
 		case 'r':
 			i++
 			sb.WriteString("require(\"" + string(code[i]) + "\")\n")
+		case 'f':
+			i++
+			if code[i] == '1' {
+				sb.WriteString("function gf(a) end\n")
+			} else {
+				sb.WriteString("function gf(a, b) end\n")
+			}
+		case 'g':
+			sb.WriteString("gf(1, 2, 3)\n")
 		default:
 			panic("bad content code " + code)
 		}
@@ -341,6 +352,7 @@ func init() {
 	register("c08.history", c08History)
 	register("c08.raw", c08History)
 	register("c08.batch", c08History)
+	register("c08.tagonly", c08History)
 	register("c08.one", c08One)
 	register("c08.fresh", c08Fresh)
 }
